@@ -945,6 +945,9 @@ def compare(I, op, l, r, node):
                 return opn == 'NotEq'
 
             def refine(t, l=l, v=cr, pos=(opn == 'Eq')):
+                log = getattr(I, 'pin_log', None)
+                if log is not None:
+                    log.append((l, v, t == pos))
                 if t == pos:
                     l.pin(v)
                 else:
